@@ -299,7 +299,16 @@ func downloadBundleDescriptor(store storage.Store, repo, key string, settings Se
 	}
 
 	if settings.withMinimalBundle {
-		// in this configuration, don't fetch the bundle descriptor: we are only interested about the key
+		// in this configuration, don't fetch the bundle descriptor: we are only interested about the key.
+		// Still, a bundle only exists with its descriptor: index files alone are leftovers of an interrupted upload.
+		exists, erh := store.Has(context.Background(), model.GetArchivePathToBundle(repo, apc.BundleID))
+		if erh != nil {
+			return model.BundleDescriptor{}, erh
+		}
+		if !exists {
+			return model.BundleDescriptor{}, storagestatus.ErrNotExists
+		}
+
 		return model.BundleDescriptor{
 			ID: apc.BundleID,
 		}, nil
